@@ -81,10 +81,30 @@ enum Item {
     Empty,
 }
 
+/// A syntactically complete OpenPGP v4 signature packet of the given signature type (EdDSA, SHA-256, creation time and
+/// issuer subpackets, two 256-bit integers): what a parser of OpenPGP packets accepts, whatever it is a signature of.
+fn real_packet(sig_type: pgp::packet::SignatureType, salt: u8) -> Vec<u8> {
+    use pgp::packet::{SignatureConfig, Subpacket, SubpacketData};
+    let mut cfg = SignatureConfig::v4(sig_type, pgp::crypto::public_key::PublicKeyAlgorithm::EdDSALegacy, pgp::crypto::hash::HashAlgorithm::SHA2_256);
+    cfg.hashed_subpackets.push(Subpacket::regular(SubpacketData::SignatureCreationTime(chrono::TimeZone::timestamp_opt(&chrono::Utc, 1_600_000_000, 0).unwrap())));
+    cfg.unhashed_subpackets.push(Subpacket::regular(SubpacketData::Issuer(pgp::types::KeyId::from_slice(&[salt; 8]).expect("key id"))));
+    let sig = pgp::packet::Signature::from_config(cfg, [salt, salt], pgp::types::SignatureBytes::Mpis(vec![pgp::types::Mpi::from_raw(vec![0x40 | salt; 32]), pgp::types::Mpi::from_raw(vec![0x41 | salt; 32])]));
+    let mut out = vec![];
+    pgp::packet::write_packet(&mut std::io::Cursor::new(&mut out), &sig).expect("serialise a signature packet");
+    out
+}
+
 /// OPENPGP tag variants: (description, value or absent, well-formed items)
 fn openpgp_variants() -> Vec<(&'static str, Option<Val>, Vec<Item>)> {
     let g1 = Item::Good(b"\x01sig-A".to_vec());
     let g2 = Item::Good(b"\x02sig-B".to_vec());
+    // well-formed OpenPGP packets: a document signature, and signature packets of other kinds (a certification as found in
+    // every key file, a subkey binding, a standalone signature) — whatever they are, the verifier is the one to judge them
+    use pgp::packet::SignatureType as ST;
+    let doc = Item::Good(real_packet(ST::Binary, 1));
+    let cert = Item::Good(real_packet(ST::CertPositive, 2));
+    let bind = Item::Good(real_packet(ST::SubkeyBinding, 3));
+    let alone = Item::Good(real_packet(ST::Standalone, 4));
     let mk = |items: &[Item]| {
         Val::StrArray(
             items
@@ -107,6 +127,11 @@ fn openpgp_variants() -> Vec<(&'static str, Option<Val>, Vec<Item>)> {
         ("malformed then good", vec![Item::Malformed, g1.clone()]),
         ("empty then good", vec![Item::Empty, g2.clone()]),
         ("three good items", vec![g1.clone(), g2.clone(), g1.clone()]),
+        ("one well-formed document signature packet", vec![doc.clone()]),
+        ("one well-formed certification packet", vec![cert.clone()]),
+        ("one well-formed standalone signature packet", vec![alone.clone()]),
+        ("a certification packet then a document signature packet", vec![cert.clone(), doc.clone()]),
+        ("a document signature packet then a subkey-binding packet", vec![doc.clone(), bind.clone()]),
     ];
     let mut v: Vec<(&'static str, Option<Val>, Vec<Item>)> = vec![("absent", None, vec![])];
     for (n, l) in lists {
